@@ -161,8 +161,8 @@ class Gen:
                     continue
                 vals = [self.value(w) for _ in range(n)]
                 lines.append(self.fmt_req("W", us, st, sd, ct) + " %d%s" % (n, "".join(" " + v for v in vals)))
+                written = True
                 if kind == "valid":
-                    written = True
                     if unlim:
                         numrecs = max(numrecs, st[0] + (ct[0] - 1) * sd[0] + 1)
             elif p < 0.80:
@@ -400,6 +400,8 @@ def signature(h, idx):
 def check_history(h, R, S, M, meta):
     """-> (spec_problem, model_problem) each None or (op index, text)."""
     sp = mp = None
+    if any(l.startswith("M 256") for l in h):
+        M = []      # the model's domain is fill mode (no-fill storage states are not modelled): R ~ S only
     for i, hl in enumerate(h):
         if i >= len(R):
             sp = sp or (i, "harness died during: " + hl[:120])
